@@ -38,23 +38,40 @@ def allReleased (g : G) : Bool :=
 def pathTag (l : Loc) : String :=
   (if l.st.res == .cpe then "eof" else if l.st.exc.isSome then "exc" else "msg") ++ (if l.big then "+big" else "")
 
-/-- case: {"invs": [{"callee": [...], "big": bool, "dur": n, "pred": null | idx}, …]} -/
+/-- the event loops of a scenario, one after the other (`asyncio.run` per round): every round is scheduled to its end from
+    `G.newLoop` of the state the previous round ended in (all of them from the empty interpreter `G.init []`).  Also, per round,
+    the same schedule with the exit step of the lingering children (`hold`) withheld: behind which invocations does the loop sit
+    frozen inside `join`.  Result: (end state, invocations the loop is frozen behind, frozen at all) -/
+def runRounds (sc : List Sched) (cs : List (Callee × Bool)) (hold : List Nat) (fuel : Nat) :
+    List Nat → Nat → G → List Nat → Bool → G × List Nat × Bool
+  | [], _, g, st, fr => (g, st, fr)
+  | n :: rest, off, g, st, fr =>
+    let g0 := G.newLoop g ((cs.drop off).take n)
+    let rem := sc.map (·.dur)
+    let g1 := schedule prog sc fuel rem g0
+    let gH := if hold.isEmpty then g1 else scheduleH hold prog sc fuel rem g0
+    runRounds sc cs hold fuel rest (off + n) g1 (st ++ blockedBehind prog hold gH) (fr || (!hold.isEmpty && frozen prog gH))
+
+/-- case: {"invs": [{"callee": [...], "big": bool, "dur": n, "pred": null | idx}, …], "rounds": [n₀, n₁, …]?}: the first n₀
+    invocations are made in a first event loop, the next n₁ in a second one started after the first has ended, …
+    (no "rounds": one event loop for all) -/
 def handle (c : Json) : Json :=
   let invs := jL (jF c "invs")
   let cs : List (Callee × Bool) := invs.mapIdx (fun i j => (calleeOf i (jF j "callee"), jB (jF j "big")))
   let sc : List Sched := invs.map (fun j => { dur := jN (jF j "dur"), pred := jOptN (jF j "pred") })
-  let g := schedule prog sc (64 * (invs.length + 1)) (sc.map (·.dur)) (G.init cs)
+  let rounds : List Nat := match (jL (jF c "rounds")).map jN with | [] => [invs.length] | r => r
   -- children that linger after their send: where does the system stand while they have not exited?
   let hold := (List.range invs.length).filter (fun i => match invs[i]? with | some j => jTag (jF j "callee") == "linger" | none => false)
-  let gH := scheduleH hold prog sc (64 * (invs.length + 1)) (sc.map (·.dur)) (G.init cs)
+  let (g, stall, frozenH) := runRounds sc cs hold (64 * (invs.length + 1)) rounds 0 (G.init []) [] false
   let model := mkObj [
     ("out", jArr (g.invs.map locOut)),
-    ("terminates", jBool (g.invs.all (fun l => l.st.final))),
+    ("terminates", jBool (g.invs.length == invs.length && g.invs.all (fun l => l.st.final))),
     ("released", jBool (allReleased g)),
     ("path", jArr (g.invs.map (fun l => jStr (pathTag l)))),
     -- invocations inside the synchronous `join` while their child lingers, and is the event loop frozen then
-    ("stall", jArr ((blockedBehind prog hold gH).map jNat)),
-    ("loopFrozenWhileLingering", jBool (!hold.isEmpty && frozen prog gH)),
+    ("stall", jArr (stall.map jNat)),
+    ("loopFrozenWhileLingering", jBool frozenH),
+    ("rounds", jNat rounds.length),
     ("stuck", jBool ((gsucc prog g).isEmpty && !g.invs.all (fun l => l.st.final)))]
   let spec := mkObj [
     ("allowed", jArr (cs.map (fun c => jArr ((Spec.allowed c.1).map obsJ)))),
